@@ -505,6 +505,10 @@ def countexact(run, fx):
             continue
         FCP, FSL = IT + pf[0], IT + sf[0]
         cases, prob = 0, None
+        ctor = [f_ for f_ in _uniq(fx.fns_named(IT + '_utf_iterator')) if not f_.f.get('implicit') and len(f_.f.get('params') or []) == 1 and 'void' in ((f_.f.get('params') or [{}])[0].get('t') or '')]
+        ctor = ctor[0] if len(ctor) == 1 else None
+        if ctor is None:
+            run.observe('VALIDATEFIRST: the constructor %s_utf_iterator(const void *) was not found in the facts; the iterators of the count run start with step length 1 by hand' % IT)
         try:
             for n in range(0, 4):
                 for units in itertools.product(reps, repeat=n):
@@ -512,12 +516,19 @@ def countexact(run, fx):
                         if not with_last and 0 not in units:
                             continue               # without a buffer end the text must be NUL-terminated (the API contract)
                         vec = O.Vec([O.Lz([u]) for u in units])
-                        first = O.Rec()
-                        first[FCP], first[FSL] = O.It(vec, 0), 1
-                        last = O.Rec()
-                        last[FCP], last[FSL] = (O.It(vec, n) if with_last else O.Ptr(None)), 1
-                        errv = O.Vec(['unset'])
                         it = O.Interp(fx, natives={'abs': lambda i_, f_, e_, o_, a_: abs(i_.rv(a_[0]))})
+                        it.MAX_STEPS = 6000
+                        # the two iterators are made by the iterator's own constructor (as gr_count_unicode_characters makes them from
+                        # the caller's pointers), not set up by hand: the initial step length is the library's
+                        first, last = O.Rec({FCP: None, FSL: None}), O.Rec({FCP: None, FSL: None})
+                        if ctor is not None:
+                            it.call(ctor, first, [O.It(vec, 0)])
+                            it.call(ctor, last, [O.It(vec, n) if with_last else O.Ptr(None)])
+                            it.steps = 0
+                        else:
+                            first[FCP], first[FSL] = O.It(vec, 0), 1
+                            last[FCP], last[FSL] = (O.It(vec, n) if with_last else O.Ptr(None)), 1
+                        errv = O.Vec(['unset'])
                         it.lz_arith_ok = True        # the decoded value of a surrogate pair is only tested against 0 here, and it is >= 0x10000 for every pair
                         it.MAX_STEPS = 6000
                         desc = 'UTF-%d units [%s]%s' % (w, ' '.join('%04X' % u for u in units), ' with buffer end' if with_last else ' NUL-terminated, no buffer end')
